@@ -503,6 +503,171 @@ def _c4(P):
 """)
 
 
+# ---- recovery from a transient fault (mode fault, witness ttl-clock:stalled-after-fault) ----
+
+@mutant('f1', 'a timer re-armed only at the end of the loop body: the continue on an error path skips the re-arm')
+def _f1(P):
+    P('engine.go', """	ticker := time.NewTicker(interval)
+	defer ticker.Stop()
+""", """	ticker := time.NewTimer(interval)
+	defer ticker.Stop()
+""")
+    P('engine.go', """		// commit transaction
+		err = e.Commit(txn)
+		if err != nil {
+			if reporter != nil {
+				reporter(err)
+			}
+			continue
+		}
+""", """		// commit transaction
+		err = e.Commit(txn)
+		if err != nil {
+			if reporter != nil {
+				reporter(err)
+			}
+			continue
+		}
+		ticker.Reset(interval)
+""")
+    # the other error paths re-arm, only the commit error path forgets it
+    P('engine.go', """			if reporter != nil {
+				reporter(err)
+			}
+			continue
+		}
+
+		// expire documents""", """			if reporter != nil {
+				reporter(err)
+			}
+			ticker.Reset(interval)
+			continue
+		}
+
+		// expire documents""")
+
+
+@mutant('f2', 'the expiry loop parks for good after the first commit error')
+def _f2(P):
+    P('engine.go', """		err = e.Commit(txn)
+		if err != nil {
+			if reporter != nil {
+				reporter(err)
+			}
+			continue
+		}
+""", """		err = e.Commit(txn)
+		if err != nil {
+			if reporter != nil {
+				reporter(err)
+			}
+			<-e.tomb.Dying()
+			return
+		}
+""")
+
+
+@mutant('f3', 'Commit does not release the write token when the store fails')
+def _f3(P):
+    P('engine.go', """	// ensure token is released
+	defer e.token.Release()
+
+	// unset transaction
+	e.txn = nil
+""", """	// unset transaction
+	e.txn = nil
+	released := false
+	defer func() {
+		if !released {
+			_ = released
+		}
+	}()
+""")
+    P('engine.go', """	// broadcast change
+	for stream := range e.streams {""", """	e.token.Release()
+	released = true
+
+	// broadcast change
+	for stream := range e.streams {""")
+    P('engine.go', """	// check if dirty
+	if !txn.Dirty() {
+		return nil
+	}
+""", """	// check if dirty
+	if !txn.Dirty() {
+		e.token.Release()
+		return nil
+	}
+""")
+
+
+@mutant('f4', 'Commit leaves the failed transaction registered as the active one')
+def _f4(P):
+    P('engine.go', """	// unset transaction
+	e.txn = nil
+
+	// check if dirty
+	if !txn.Dirty() {
+		return nil
+	}
+""", """	// check if dirty
+	if !txn.Dirty() {
+		e.txn = nil
+		return nil
+	}
+""")
+    P('engine.go', """	// set new catalog
+	e.catalog = txn.Catalog()""", """	// set new catalog
+	e.txn = nil
+	e.catalog = txn.Catalog()""")
+
+
+@mutant('f5', 'the error callback is invoked under the engine lock (a callback that looks at the engine wedges the loop)')
+def _f5(P):
+    P('engine.go', """		err = e.Commit(txn)
+		if err != nil {
+			if reporter != nil {
+				reporter(err)
+			}
+			continue
+		}
+""", """		err = e.Commit(txn)
+		if err != nil {
+			if reporter != nil {
+				e.mutex.Lock()
+				reporter(err)
+				e.mutex.Unlock()
+			}
+			continue
+		}
+""")
+
+
+@mutant('f6', 'after a failed commit the next pass starts from the catalog of the failed transaction (its removals are never logged again)')
+def _f6(P):
+    P('engine.go', """	err := e.store.Store(txn.Catalog())
+	verifAt("commit.stored", err == nil)
+	if err != nil {
+		return err
+	}
+""", """	err := e.store.Store(txn.Catalog())
+	verifAt("commit.stored", err == nil)
+	if err != nil {
+		e.catalog = NewTransaction(txn.Catalog()).Catalog()
+		if ns := e.catalog.Namespaces[Oplog]; ns != nil {
+			keep := e.catalog.Clone()
+			keep.Namespaces[Oplog] = ns.Clone()
+			for len(keep.Namespaces[Oplog].Documents.List) > 0 && bsonkit.Get(keep.Namespaces[Oplog].Documents.List[len(keep.Namespaces[Oplog].Documents.List)-1], "operationType") == "delete" {
+				l := keep.Namespaces[Oplog].Documents.List
+				keep.Namespaces[Oplog].Documents.Remove(l[len(l)-1])
+			}
+			e.catalog = keep
+		}
+		return err
+	}
+""")
+
+
 # Delay-only mutants: they DELAY the removal within the slack the stream has to grant on a loaded machine
 # (must-be-gone = expired for 10 intervals + 500 ms, re-checked after another 10 intervals + 400 ms); a tighter
 # latency monitor produced a false positive under load and is a distribution tag only (median-latency:*). They
@@ -556,7 +721,7 @@ def run(name, n, seed):
         shutil.copy("/repo/go.sum", copy + ".sum")
         env = dict(os.environ, GOFLAGS="-mod=mod", GOPROXY="off")
         subprocess.run(["go", "build", "-modfile=" + mod, "-tags", "verif", "-o", binary, "./cmd/harness"], cwd=go, env=env, check=True)
-        subprocess.run([binary, "-nomodel", "-stream", "ttlclock", "-seed", str(seed), "-n", str(n), "-out", out], stdout=subprocess.DEVNULL, check=False)
+        subprocess.run([binary, "-nomodel", "-stream", "ttlclock", "-seed", str(seed), "-n", str(n), "-out", out], stdout=subprocess.DEVNULL, check=False, timeout=600)
         r = json.load(open(out))
         c = collections.Counter()
         for k, v in r["distribution"].items():
